@@ -52,7 +52,9 @@ Holds(c, ev) ==
          /\ \A i \in DOMAIN r.ew : Finite(r.ew[i])
     [] c = "ref_echo_finite" -> Finite(r.reflat) /\ Finite(r.reflon)
     [] c = "track_range" -> TrackInRange(r.track)
-    [] c = "address" -> r.icao24 = Hex6(p.addr)
+    [] c = "address" -> /\ r.icao24 = Hex6(p.addr)
+                        \* the serialised record (serde: JSON, Python binding) shows the same address
+                        /\ (Has(r, "icao24_json") => r.icao24_json = Hex6(p.addr))
     [] c = "address_kind" -> r.is_icao24 = (p.magic = 16)
     [] c = "type" -> r.actype = p.type
     [] c = "flags" -> r.no_track = (p.notrack = 1) /\ r.stealth = (p.stealth = 1)
